@@ -47,6 +47,7 @@ TRACER_BASE = {
 CHECKS = {
     "C01": {"external": "vcheck_c01"},
     "C02": {"external": "vcheck_c02"},
+    "C19": {"external": "vcheck_c19"},
     "C14": dict(TRACER_BASE, **{
         "scenarios": [{"name": "c14"}],
         "budget": {"quick": {"seconds": 30, "workers": 16}, "thorough": {"seconds": 900, "workers": 16}},
